@@ -157,13 +157,36 @@ def run_check(pid, tier, seed, keep=False):
             if h.whitebox and not whitebox:
                 continue
             all_h.append((p, h))
+    failing = []
     for p, h in all_h:
         full = "%s::%s" % (p.name, h.name)
         r = res.get(full)
         if r is None:
             run.machinery.append("no verdict for harness %s (driver timed out or Kani aborted)" % full)
             continue
-        evaluate(run, p, h, r, known, htimeout, feats, stubbing)
+        if evaluate_simple(run, p, h, r):
+            failing.append((p, h, r))
+    # counterexample extraction: re-run failing harnesses with concrete playback, a few at a time in parallel,
+    # cheapest first; beyond the cap the remaining failures are listed but not replayed.
+    failing.sort(key=lambda x: x[2].time_s)
+    cap = int(os.environ.get("VERIF_PLAYBACK_CAP", "4" if tier == "quick" else "12"))
+    todo, rest = failing[:cap], failing[cap:]
+    import concurrent.futures as cf
+    def _pb(item):
+        p, h, r = item
+        if h.should_panic:
+            return item, None
+        return item, fw.kani_playback(run.cdir, run.log, r.full, htimeout, features=feats, stubbing=stubbing)
+    with cf.ThreadPoolExecutor(max_workers=4) as ex:
+        pbs = list(ex.map(_pb, todo))
+    for (p, h, r), pb in pbs:
+        evaluate_failed(run, p, h, r, known, feats, pb)
+    if rest:
+        names = ", ".join("%s (%s)" % (r.full, "; ".join(r.failed_checks[:1])) for _, _, r in rest)
+        if run.violations or run.known_hits:
+            run.say("NOTE: further failing harnesses not replayed (playback cap %d): %s" % (cap, names))
+        else:
+            run.machinery.append("failing harnesses beyond the playback cap were not replayed: " + names)
 
     # ---------------- E2 (optional, property specific)
     e2 = None
@@ -197,7 +220,8 @@ def is_whitebox_error(e, programs, regions):
     return False
 
 
-def evaluate(run, p, h, r, known, htimeout, feats, stubbing):
+def evaluate_simple(run, p, h, r):
+    """returns True when the harness FAILED with a real (non-unwinding) check and needs counterexample replay"""
     full = r.full
     if r.status == "SUCCESS":
         if r.covers_total != r.covers_sat:
@@ -206,16 +230,21 @@ def evaluate(run, p, h, r, known, htimeout, feats, stubbing):
         elif r.covers_total < h.min_covers:
             run.machinery.append("vacuity: harness %s reports %d cover properties, expected >= %d" % (
                 full, r.covers_total, h.min_covers))
-        return
+        return False
     if r.status in ("TIMEOUT", "ERROR", "UNKNOWN"):
         run.machinery.append("harness %s: %s (no verdict within the cap)" % (full, r.status))
-        return
-    # FAILED
+        return False
     real = [c for c in r.failed_checks if "unwinding assertion" not in c]
     if not real and r.failed_checks:
         run.machinery.append("harness %s: unwinding assertion failed (bound too small for the current code): %s" % (
             full, r.failed_checks[0]))
-        return
+        return False
+    return True
+
+
+def evaluate_failed(run, p, h, r, known, feats, pb):
+    full = r.full
+    real = [c for c in r.failed_checks if "unwinding assertion" not in c]
     if h.should_panic:
         replay = fw.native_replay(run.cdir, run.pid, full, [], run.log, features=feats_native(feats))
         test = {"check": "expected a panic, none occurred", "vals": []}
@@ -224,7 +253,7 @@ def evaluate(run, p, h, r, known, htimeout, feats, stubbing):
         else:
             run.machinery.append("harness %s: Kani saw no panic but the native run panics" % full)
         return
-    tests, pout = fw.kani_playback(run.cdir, run.log, full, htimeout, features=feats, stubbing=stubbing)
+    tests, pout = pb
     # NB: Kani de-duplicates playback tests by their concrete values, so the values of a failing assertion may
     # be printed under a `cover` heading; every distinct value vector is therefore replayed natively.
     tests.sort(key=lambda t: t["check_kind"] == "cover")
@@ -236,7 +265,7 @@ def evaluate(run, p, h, r, known, htimeout, feats, stubbing):
     reported_checks = set()
     seen = set()
     for t in tests:
-        key = (t["check"], tuple(t["vals"]))
+        key = tuple(t["vals"])
         if key in seen:
             continue
         seen.add(key)
